@@ -260,7 +260,10 @@ def written_recipe_formulas(recipe: dict, path: Path) -> dict:
 
 
 STRING_LITERALS = ['he said "hi"', '""', '"', 'a""b"c', '"""', 'x"', "it's", "a,b", "a;b", "(", "{1,2}", "tab\there", "",
-                   "=1+2", "'q'", 'a""""b', '6" x 2"" (w x h)', 'say "hi" twice: ""x', "a&b", 'q"&"r', "#REF!", "A1:B2"]
+                   "=1+2", "'q'", 'a""""b', '6" x 2"" (w x h)', 'say "hi" twice: ""x', "a&b", 'q"&"r', "#REF!", "A1:B2", ")", "}", ":-)", "a}b", "))(", "{", "'", "a'b)"]
+
+
+REJECTED_BY_WRITER: list = []
 
 
 def written_string_formulas(path: Path) -> dict:
@@ -274,7 +277,13 @@ def written_string_formulas(path: Path) -> dict:
         esc = s.replace('"', '""')
         for j, f in enumerate([f'LEN("{esc}")', f'B1&"{esc}"&"c"', f'IF(A1="{esc}","{esc}",1)']):
             t.write(i, j, 0)
-            t.cell(i, j).formula = f
+            try:
+                t.cell(i, j).formula = f
+            except Exception as e:  # noqa: BLE001
+                # the formula writer tokenizes its argument: a well-formed formula (quotes doubled inside literals) that it
+                # refuses is a formula the reader would print for such a document and the tokenizer does not accept
+                REJECTED_BY_WRITER.append((f, f"{type(e).__name__}: {e}"))
+                continue
             wrote[(i, j)] = f
     doc.save(str(path))
     back = Document(str(path)).sheets[0].tables[0]
@@ -535,6 +544,11 @@ def run(ctx: Ctx) -> int:
                     r = ("reader-string-split", f"written {where[1]!r} ({len(a)} tokens) is read as {f!r} ({len(b)} tokens)")
             if r:
                 fail(ctx, r[0], {"kind": "reader", "source": src, "where": where, "cps": [ord(c) for c in f]}, r[1])
+    for f, why in REJECTED_BY_WRITER[:5]:
+        ctx.count("reader_acceptance")
+        fail(ctx, "reader-formula-rejected", {"kind": "reader", "source": "well-formed string literal", "cps": [ord(c) for c in f]},
+             f"the well-formed formula {f!r} (a string literal with its quotes doubled) is refused: {why}")
+    REJECTED_BY_WRITER.clear()
     texts = sorted(set(forms) | set(wforms))
     texts = sorted(set(texts) | {f.translate(OPERATOR_MAP) for f in texts})
     run_tok_stream(ctx, T, exe, "reader_formulas", texts)
